@@ -10,7 +10,21 @@ open C09BuildModel
 
 let n_of_dec (s : string) : BinNums.coq_N = n_of_int (int_of_string s)
 let z_of_dec (s : string) : BinNums.coq_Z = z_of_int (int_of_string s)
-let dec_of_n n = string_of_int (int_of_n n)
+(* decimal text of an N; values of 2^62 and more (uint64 decode times) do not fit an OCaml int: from the hex text *)
+let dec_of_n n =
+  let rec pos_bits p = match p with BinNums.Coq_xH -> 1 | BinNums.Coq_xO q | BinNums.Coq_xI q -> 1 + pos_bits q in
+  if (match n with BinNums.N0 -> 0 | BinNums.Npos p -> pos_bits p) <= 60 then string_of_int (int_of_n n)
+  else begin
+    let h = hex_of_n n in
+    let digits = ref [0] in     (* little-endian base-10 digits *)
+    S.iter (fun c ->
+        let carry = ref (hexval c) in
+        let ds = L.map (fun d -> let v = d * 16 + !carry in carry := v / 10; v mod 10) !digits in
+        let rec ext acc c = if c = 0 then acc else ext (acc @ [c mod 10]) (c / 10) in
+        digits := ext ds !carry) h;
+    let rec strip l = match l with 0 :: (_ :: _ as t) -> strip t | _ -> l in
+    S.concat "" (L.map string_of_int (strip (L.rev !digits)))
+  end
 let dec_of_z z = string_of_int (int_of_z z)
 
 let triple_colon e = match split_on ':' e with
@@ -169,6 +183,28 @@ let run_query (tb : tables) (q : string) : string =
   | "gr" -> res_str (join ";" (fun r -> dec_of_n r.r_off ^ "." ^ dec_of_n r.r_size)) (trak_get_ranges tb (a 1) (a 2))
   | _ -> "unknown-query"
 
+(* "pu": the queries of the case line as ONE sequence of state transformers (C09PureModel.run_all) on the case's
+   boxes: the state at the end must be the initial state and every answer the answer on the initial state
+   (C09_queries_pure / C09_queries_order_independent, here evaluated; the harness compares a snapshot of every field
+   of the real boxes before and after its queries) *)
+let pure_query (q : string) : C09PureModel.query option =
+  let f = split_on ':' q in
+  let a i = n_of_dec (L.nth f i) in
+  let open C09PureModel in
+  match L.hd f with
+  | "dt" -> Some (QDecodeTime (a 1)) | "du" -> Some (QDur (a 1)) | "st" -> Some (QSampleAtTime (a 1))
+  | "ct" -> Some (QCto (a 1)) | "sy" -> Some (QIsSync (a 1)) | "ns" -> Some QNrSamples
+  | "sz" -> Some (QSize (a 1)) | "ts" -> Some (QTotalSize (a 1, a 2)) | "of" -> Some (QOffset (a 1))
+  | "cn" -> Some (QChunkOfSample (a 1)) | "gc" -> Some (QGetChunk (a 1)) | "sd" -> Some (QSdid (a 1))
+  | "gd" -> Some (QSampleData (a 1, a 2))
+  | _ -> None     (* cc / gr: skipped when the harness's runaway-span guard may have skipped them *)
+let pure_token (tb : tables) (toks : string list) : string =
+  let qs = L.filter_map (fun tok -> match S.index_opt tok '=' with
+      | None -> None | Some k -> pure_query (S.sub tok 0 k)) toks in
+  let s0 = { C09PureModel.f_frag = false; f_mdat_start = N0; f_mdat_data = []; f_mdat_lazy = N0; f_tb = tb } in
+  let (answers, s1) = C09PureModel.run_all qs s0 in
+  if s1 = s0 && answers = L.map (fun q -> C09PureModel.eval q s0) qs then "ok/1" else "ok/0"
+
 (* the cache fields after the first i+1 calls of the history, and the outcome class of call i *)
 let ctts_state (b : ctts_box) = join0 "," dec_of_n b.ct_end ^ "/" ^ string_of_int (L.length b.ct_off)
 let stsc_state (b : stsc_box) =
@@ -219,7 +255,8 @@ let () =
                    | None -> ()
                    | Some k ->
                      let q = S.sub tok 0 k and r = S.sub tok (k + 1) (S.length tok - k - 1) in
-                     let m = if S.length q > 2 && (S.sub q 0 2 = "bc" || S.sub q 0 2 = "bs")
+                     let m = if q = "pu" then pure_token tb (L.tl toks)
+                       else if S.length q > 2 && (S.sub q 0 2 = "bc" || S.sub q 0 2 = "bs")
                        then trace_token h q else run_query tb q in
                      if m <> r then bad := Some (q, m, r))
                (L.tl toks);
